@@ -78,12 +78,15 @@ def keygen (addr user pass : Str) (r : Reply) : List Str × Option Str :=
 /-- `s.urlPrefix = fmt.Sprintf("%s/api/?key=%s&", addr, key)` -/
 def urlPrefix (addr key : Str) : Str := addr ++ "/api/?key=".toList ++ key ++ ['&']
 
-/-- `httpPrefixGetLog`: the two log entries and the error it returns. -/
-def prefixGet (pre uri : Str) (r : Reply) : List Str × Option Str :=
-  let full := pre ++ uri
-  let log := [doLog (maskApi full), doLog r.body]
+/-- `s.logPrefix = fmt.Sprintf("%s/api/?key=xxx&", addr)` (`setAPIKey`) -/
+def logPrefix (addr : Str) : Str := addr ++ "/api/?key=xxx&".toList
+
+/-- `httpPrefixGetLog`: the two log entries (URL with the masked prefix `logPre`, answer) and the error
+it returns (`pre` is the real prefix with the key). -/
+def prefixGet (logPre pre uri : Str) (r : Reply) : List Str × Option Str :=
+  let log := [doLog (logPre ++ uri), doLog r.body]
   let err := match r with
-    | .terr m => some (urlError sGet full m)
+    | .terr m => some (urlError sGet (pre ++ uri) m)
     | .status c b => some (statusMsg c b)
     | .ok _ => none
     | .fail _ _ => none
@@ -144,16 +147,16 @@ def notActive (ip name : Str) : Str := "not in active state: ".toList ++ ip ++ "
 
 /-- The requests behind login and HA check: log both entries; the first error ends the run with an
 `ERROR>>> ` line (`errlog.Abort("%v", err)` in `device.ApproveOrCompare`). -/
-def panosReqs (pre : Str) : List Req → List Reply → Sinks → Sinks
+def panosReqs (logPre pre : Str) : List Req → List Reply → Sinks → Sinks
   | [], _, s => s
   | _ :: _, [], s => s
   | q :: qs, r :: rs, s =>
-    let (lg, e) := prefixGet pre q.uri r
+    let (lg, e) := prefixGet logPre pre q.uri r
     let s := s.add q.log lg
     match e, r with
     | some m, _ => s.err (q.wrap ++ m)
     | none, .fail _ m => s.err (q.wrap ++ m)
-    | none, _ => panosReqs pre qs rs s
+    | none, _ => panosReqs logPre pre qs rs s
 
 /-- A whole PAN-OS run (one device name in the info file).
 `kg` — reply to the keygen request; `key` — what `parseAPIKey` extracts from it (used if `kg = .ok _`);
@@ -166,13 +169,14 @@ def panosRun (addr user pass name ip : Str) (kg : Reply) (key : Str)
   | some m => (s.warn m).err (sUnreach ++ name)
   | none =>
     let pre := urlPrefix addr key
+    let logPre := logPrefix addr
     match reps with
     | [] => s
     | ha :: rest =>
-      let (lg, _) := prefixGet pre sHaUri ha
+      let (lg, _) := prefixGet logPre pre sHaUri ha
       let s := s.add .login lg
       match ha with
-      | .ok _ => panosReqs pre reqs rest s
+      | .ok _ => panosReqs logPre pre reqs rest s
       | _ => (s.warn (notActive ip name)).err (sUnreach ++ name)
 
 /-! ## NSX -/
